@@ -112,6 +112,7 @@ def build(tier, seed):
                 for prior in (False, True):
                     for ng in (False, True):
                         cases.append({'kind': 'ls', 'model': model, 'layout': layout, 'corr': corr, 'prior': prior, 'num_grad': ng})
+                cases.append({'kind': 'ls', 'model': model, 'layout': layout, 'corr': corr, 'prior': 'string', 'num_grad': False})
         for ng in (False, True):
             if ng and tier == 'quick' and model not in ('exp', '2d'):
                 continue      # num_grad total least squares is slow: two models in the quick tier, all in thorough
@@ -173,11 +174,17 @@ def run_ls(pe, acc, case):
         kw['num_grad'] = True
     prior_obs = None
     prior_arg = None
+    prior_str = None
     if use_prior:
         prior_obs = pe.Obs([ptrue[1] * 1.05 + 0.1 * ptrue[1] * alpha.rng('c08prior', model).normal(size=25)], ['P|r1'])
         prior_obs.gamma_method()
         prior_arg = {1: prior_obs}
-    sig = 'ls:%s%s%s%s' % (model, ':corr' if corr else '', ':prior' if use_prior else '', ':numgrad' if ng else '')
+    if use_prior == 'string':
+        # the documented explicit form 'value(error)' with a decimal point in both: value 1.05 ptrue, error 0.1 ptrue
+        pv, pd = round(ptrue[1] * 1.05, 2), round(0.1 * ptrue[1], 3)
+        prior_str = '%.2f(%.3f)' % (pv, pd)
+        prior_arg = {1: prior_str}
+    sig = 'ls:%s%s%s%s' % (model, ':corr' if corr else '', (':prior-string' if prior_str else ':prior') if use_prior else '', ':numgrad' if ng else '')
     sub = dict(case)
     try:
         res = pe.least_squares(x, ys, f, priors=prior_arg, silent=True, **kw)
@@ -192,7 +199,7 @@ def run_ls(pe, acc, case):
         W = np.linalg.inv(np.diag(dy) @ cm @ np.diag(dy))
     else:
         W = np.diag(1 / dy ** 2)
-    pr = (1, prior_obs.value, prior_obs.dvalue) if use_prior else None
+    pr = ((1, pv, pd) if prior_str else (1, prior_obs.value, prior_obs.dvalue)) if use_prior else None
     chi = chisq_func(f, x, yv, W, pr)
     # (1) stationarity and reported chi-square
     c0 = chi(pfit)
@@ -208,7 +215,7 @@ def run_ls(pe, acc, case):
         return
     # (2) re-fit sensitivities for every data point (and the prior)
     kw2 = dict(kw, initial_guess=list(pfit))
-    sources = [('y%d' % i, i) for i in range(n)] + ([('prior', None)] if use_prior else [])
+    sources = [('y%d' % i, i) for i in range(n)] + ([('prior', None)] if (use_prior and not prior_str) else [])
     coefs = np.zeros((len(sources), npar))
     for si, (nm, i) in enumerate(sources):
         src = ys[i] if i is not None else prior_obs
@@ -245,8 +252,8 @@ def run_ls(pe, acc, case):
                     return
         # nothing else enters
         for k in range(npar):
-            allowed = set(src.names[0] for src in ys) | ({'P|r1'} if use_prior else set())
-            if set(res.fit_parameters[k].names) != allowed:
+            allowed = set(src.names[0] for src in ys) | ({'P|r1'} if (use_prior and not prior_str) else set())
+            if set(nm for nm in res.fit_parameters[k].names if not nm.startswith('#prior')) != allowed:
                 acc.fail(sig + ':chains', sub, 'parameter %d lives on %s, expected %s' % (k, res.fit_parameters[k].names, sorted(allowed)))
                 return
     else:
@@ -259,7 +266,7 @@ def run_ls(pe, acc, case):
                 acc.fail(sig + ':sensitivity', sub, '%s model, shared ensemble: fluctuations of parameter %d differ from sum_i (dp/dy_i) delta y_i by %g (scale %g)' % (
                     model, k, np.max(np.abs(got - exp)), sc))
                 return
-            if use_prior:
+            if use_prior and not prior_str:
                 got, spread = coefficient(res.fit_parameters[k], 'P|r1', prior_obs)
                 tol = 2e-3 * max(abs(coefs[n, k]), 1e-2 * cmax[k])
                 if not abs(got - coefs[n, k]) <= tol:
